@@ -111,6 +111,12 @@ def rois(extra_rng=None, n_extra=0):
     out.append(('polygon-closed', G.PolygonalROI([-0.5, 2.6, 0.9, -0.5], [-0.4, 0.2, 2.7, -0.4])))
     out.append(('polygon-last-vertex-extreme', G.PolygonalROI([0.5, 0.5, 1.5, 3.6], [-0.5, 2.5, 2.5, 1.0])))
     out.append(('annulus', G.CircularAnnulusROI(1.0, 1.0, 0.6, 1.7)))
+    # curved / polygonal regions reaching well below position 0 (drawn after zooming out past the first category) and beyond the last one
+    out.append(('circle-around-origin', G.CircularROI(0.0, 0.0, 2.6)))
+    out.append(('circle-wide', G.CircularROI(1.0, 1.0, 7.3)))
+    out.append(('ellipse-negative', G.EllipticalROI(-1.0, 1.0, 2.7, 1.6, theta=0.3)))
+    out.append(('rect-rotated-negative', G.RectangularROI(-3.4, 1.4, -2.2, 1.8, theta=0.5)))
+    out.append(('polygon-negative', G.PolygonalROI([-3.5, 1.5, 2.4, -1.2], [-2.5, -1.4, 2.6, 3.3])))
     return out
 
 
